@@ -36,13 +36,13 @@ type c10Batch struct {
 }
 
 var (
-	c10RetrySL = []string{"busy", "tmo", "garbage:chk", "garbage:noise", "garbage:len", "garbage:empty", "garbage:short", "lost"}
+	c10RetrySL = []string{"busy", "tmo", "garbage:chk", "garbage:noise", "garbage:len", "garbage:empty", "garbage:short", "lost", "refused"}
 	c10TermSL  = []string{"ok", "cc:c1", "ccb:d4", "cc:ff", "trunc"}
 	c10RetryIn = []string{"busy", "tmo", "garbage:noise", "garbage:authmsg", "badsig", "garbage:chk", "garbage:short"}
-	c10TermIn  = []string{"ok", "cc:c1", "ccb:d4", "cc:ff", "trunc", "lost"}
+	c10TermIn  = []string{"ok", "cc:c1", "ccb:d4", "cc:ff", "trunc", "lost", "refused"}
 	c10CmdsSL  = []string{"sl-authcaps", "sl-guid", "sl-raw", "sl-dcmicap"}
 	c10CmdsIn  = []string{"devid", "authcaps", "chassis", "raw", "power", "getsdr"}
-	c10HSRetry = []string{"lost", "garbage:noise", "garbage:rmcp", "wrongtype", "garbage:len"}
+	c10HSRetry = []string{"lost", "refused", "garbage:noise", "garbage:rmcp", "wrongtype", "garbage:len"}
 )
 
 func init() {
@@ -126,6 +126,13 @@ func c10Gen(tier string, seed int64) []ev.Case {
 			cs = append(cs, ev.MkCase("batch", c10Batch{Mode: "in", Cmd: cmd, K: kin - 1, From: f, To: f + chunk, Cancel: true, Seed: seed}))
 		}
 	}
+	// every completion code, alone and after a retry
+	for _, cmd := range c10CmdsSL {
+		cs = append(cs, ev.MkCase("batch", c10Batch{Mode: "sl", Cmd: cmd, K: -1, Seed: seed}))
+	}
+	for _, cmd := range c10CmdsIn {
+		cs = append(cs, ev.MkCase("batch", c10Batch{Mode: "in", Cmd: cmd, K: -1, Seed: seed}))
+	}
 	for _, p := range []string{"open", "rakp1", "rakp3"} {
 		tot := c10Total(c10HSRetry, []string{"ok"}, khs)
 		for f := 0; f < tot; f += 200 {
@@ -175,6 +182,19 @@ func c10Exec(run *ev.Run, c ev.Case) {
 					run.Violation("C10:handshake-failed", err.Error(), ev.MkCase("batch", b), nil)
 					return
 				}
+			}
+			if b.K == -1 {
+				for code := 1; code < 256; code++ {
+					if code == 0xc0 || code == 0xc3 {
+						continue
+					}
+					for _, pre := range [][]string{{}, {"busy"}, {"tmo", "garbage:noise"}} {
+						for _, form := range []string{"cc:%02x", "ccb:%02x"} {
+							c10Run(run, se, sess, c10One{Mode: b.Mode, Cmd: b.Cmd, Script: append(append([]string(nil), pre...), fmt.Sprintf(form, code)), Suite: suite})
+						}
+					}
+				}
+				return
 			}
 			for i := b.From; i < b.To && i < tot; i++ {
 				sc := c10Script(retry, term, b.K, i)
@@ -227,7 +247,7 @@ func retryable(o string, inSession bool) bool {
 	switch {
 	case o == "busy", o == "tmo", o == "badsig", strings.HasPrefix(o, "garbage"):
 		return true
-	case o == "lost":
+	case o == "lost", o == "refused":
 		return !inSession
 	}
 	return false
@@ -284,7 +304,7 @@ func c10Run(run *ev.Run, se *ScriptEnv, sess *bmc.V2Session, o c10One) {
 		switch {
 		case oc == "ok":
 			wantCode, wantBody = 0, true
-		case oc == "lost":
+		case oc == "lost", oc == "refused":
 			wantErr = true
 		case oc == "trunc":
 			wantCode = 0
@@ -360,11 +380,15 @@ func c10Run(run *ev.Run, se *ScriptEnv, sess *bmc.V2Session, o c10One) {
 			return
 		}
 	}
+	if k := staleDeadlineAfterLoss(res.Sends); k > 0 {
+		run.Violation("C10:attempt-after-lost-reply-keeps-expired-deadline", fmt.Sprintf("%s: transmission %d was handed the same deadline (%v) as transmission %d, whose reply was lost, i.e. which had waited until that deadline: on a real socket it could not be written", desc, k+1, res.Sends[k].Deadline.Format("15:04:05.000000"), k), cs, nil)
+		return
+	}
 	if sends != wantSends {
 		key := "C10:transmission-count"
 		if sends > wantSends {
 			key = "C10:extra-transmissions"
-			if inSession && len(o.Script) >= wantSends && o.Script[wantSends-1] == "lost" {
+			if inSession && len(o.Script) >= wantSends && (o.Script[wantSends-1] == "lost" || o.Script[wantSends-1] == "refused") {
 				key = "C10:retry-after-in-session-transport-failure"
 			}
 			if o.CancelAt > 0 {
@@ -435,6 +459,8 @@ func c10Handshake(run *ev.Run, o c10One) {
 		switch oc {
 		case "lost":
 			return nil, nil
+		case "refused":
+			return nil, memtr.ErrRefused
 		case "garbage:noise":
 			return []byte{0x13, 0x37, 0xde, 0xad, 0xbe, 0xef, 1, 2, 3, 4, 5, 6, 7, 8, 9, 10, 11}, nil
 		case "garbage:rmcp":
@@ -464,6 +490,14 @@ func c10Handshake(run *ev.Run, o c10One) {
 		run.Nontrivial(desc)
 	}
 	run.Event("transmissions", e.T.Transmissions())
+	if all := e.T.Since(0); true {
+		if k := staleDeadlineAfterLoss(all); k > 0 {
+			if d, ok := ctx.Deadline(); !ok || all[k].Deadline.Before(d) {
+				run.Violation("C10:attempt-after-lost-reply-keeps-expired-deadline", fmt.Sprintf("%s: transmission %d was handed the same deadline as transmission %d, whose reply was lost", desc, k+1, k), cs, nil)
+				return
+			}
+		}
+	}
 	if len(reqs) != len(o.Script)+1 {
 		run.Violation("C10:handshake-transmission-count", fmt.Sprintf("%s: payload transmitted %d times, model says %d (err=%v)", desc, len(reqs), len(o.Script)+1, err), cs, nil)
 		return
@@ -481,4 +515,20 @@ func c10Handshake(run *ev.Run, o c10One) {
 	if pr := problems(e.BMC); len(pr) > 0 {
 		run.Violation("C10:handshake-retransmission-malformed", fmt.Sprintf("%s: BMC problems %v", desc, pr), cs, nil)
 	}
+}
+
+// staleDeadlineAfterLoss examines the per-attempt deadlines the transport was
+// given: a lost reply means the transport waited until that attempt's
+// deadline, so the next attempt of the same call must come with a later one,
+// or it could not be transmitted (the caller's own deadline is far later than
+// any attempt's in these runs). It returns the index of the offending record,
+// or 0. No clock is read: only recorded deadlines are compared.
+func staleDeadlineAfterLoss(sends []memtr.SendRec) int {
+	for k := 1; k < len(sends); k++ {
+		p := sends[k-1]
+		if p.Err == memtr.ErrLost && p.HasDeadline && sends[k].HasDeadline && !sends[k].CtxDone && !sends[k].Deadline.After(p.Deadline) {
+			return k
+		}
+	}
+	return 0
 }
